@@ -397,8 +397,10 @@ Definition name_fs : list fieldspec := [mkFs "" "" "" "metadata/name" false].
 Section Steps.
   Variable cs : string -> string -> bool.
   Variable nonstr : string -> bool.
-  Variable namespace_fs : list fieldspec.
+  Variable prefix_fs suffix_fs namespace_fs : list fieldspec.
   Variable prefix_skip suffix_skip : list gvk.
+  Hypothesis prefix_table : prefix_fs = name_fs.
+  Hypothesis suffix_table : suffix_fs = name_fs.
   Hypothesis ns_table_ok : forallb ns_spec_ok namespace_fs = true.
 
   Lemma match_any_gvk path create obj : is_match_gvk (mkFs "" "" "" path create) obj = true.
@@ -487,9 +489,9 @@ Section Steps.
 
   Lemma prefix_one_hist p r r' :
     no_char ","%char p = true -> wf_res r ->
-    prefix_one cs name_fs prefix_skip p r = Ok r' -> wf_res r' /\ grows r r'.
+    prefix_one cs prefix_fs prefix_skip p r = Ok r' -> wf_res r' /\ grows r r'.
   Proof.
-    intros Hp Hwf H. unfold prefix_one in H.
+    intros Hp Hwf H. unfold prefix_one in H. rewrite prefix_table in H.
     apply (affix_hist p add_name_prefix (fun v => p ++ v) prefix_skip r r').
     - apply add_prefix_empty.
     - intros r0 H0. apply wf_add_prefix. assumption.
@@ -505,9 +507,9 @@ Section Steps.
 
   Lemma suffix_one_hist s r r' :
     no_char ","%char s = true -> wf_res r ->
-    suffix_one cs name_fs suffix_skip s r = Ok r' -> wf_res r' /\ grows r r'.
+    suffix_one cs suffix_fs suffix_skip s r = Ok r' -> wf_res r' /\ grows r r'.
   Proof.
-    intros Hs Hwf H. unfold suffix_one in H.
+    intros Hs Hwf H. unfold suffix_one in H. rewrite suffix_table in H.
     apply (affix_hist s add_name_suffix (fun v => v ++ s) suffix_skip r r').
     - apply add_suffix_empty.
     - intros r0 H0. apply wf_add_suffix. assumption.
@@ -692,8 +694,8 @@ Section Steps.
 
   Definition apply_step (st : rename_step) (r : resource) : res resource :=
     match st with
-    | SPrefix p => prefix_one cs name_fs prefix_skip p r
-    | SSuffix s => suffix_one cs name_fs suffix_skip s r
+    | SPrefix p => prefix_one cs prefix_fs prefix_skip p r
+    | SSuffix s => suffix_one cs suffix_fs suffix_skip s r
     | SNamespace ns => ns_one cs namespace_fs ns r
     | SHash h => hash_one cs nonstr h r
     end.
